@@ -248,9 +248,12 @@ func (e *env41) usersEvent() {
 	case len(e.users) == 0:
 		opts = []string{"insert", "insert", "insert", "drop"}
 	default:
-		opts = []string{"delete-one", "delete-all", "drop"}
+		opts = []string{"delete-all", "drop"}
 		if len(e.users) < 3 {
-			opts = append(opts, "insert", "insert")
+			opts = append(opts, "insert", "insert", "insert")
+		}
+		if len(e.users) > 1 {
+			opts = append(opts, "delete-one", "delete-one")
 		}
 	}
 	what := gen.Pick(t, "users event", opts)
@@ -1125,8 +1128,10 @@ func (e *env41) uAuth(ui int) {
 // ---------------------------------------------------------------- the property
 
 func TestC41(t *testing.T) {
-	rec := ev.New("C41", "rapid-generated interleavings (5-30 steps) of normal work on an authenticated connection (update/read transactions, queries, cursors, tokens) with raw protocol requests on 1-2 unauthenticated connections of a database that has users: every command code 0..39 plus invalid codes, arguments well formed (ids of the other connection's transactions/queries/cursors, its session id, table names, statements), boundary (bad booleans/bytes, over-announced sizes), truncated, random bytes, trailing bytes; nonce requests and authentication attempts of 19 classes (valid, stale/foreign/consumed nonce, wrong hash, unknown user, replayed string, issued/spent/random token, reply bytes). Non-trivial: a refused request is followed by an authentication attempt built from material obtained on the unauthenticated connection (nonce, reply bytes); distinct = by the rendered step sequence.")
+	rec := ev.New("C41", "rapid-generated histories (5-30 steps) of a server whose users table is missing, empty or populated at the start and is created / populated / reduced / emptied / dropped at generated points (directly on the database or by the working party over its connection), with client connections opened at generated points before and after those changes. One party (A) works normally (logs in if the database has users when it connects): update/read transactions, queries, cursors, tokens. On connections opened while the database has users and not authenticated: raw protocol requests for every command code 0..39 plus invalid codes, arguments well formed (ids of A's transactions/queries/cursors, its session id, table names, statements), boundary (bad booleans/bytes, over-announced sizes), truncated, random bytes, trailing bytes; nonce requests and authentication attempts of 19 classes (valid, stale/foreign/consumed nonce, wrong hash, unknown/removed user, replayed string, issued/spent/random token, reply bytes). On connections opened while it has none: read-only requests that must be answered. Non-trivial: a refused request is followed by an authentication attempt built from material obtained on the unauthenticated connection (nonce, reply bytes); distinct = by the rendered step sequence.")
 	rec.Assumptions = []string{
+		"rule taken from the property and from where newServerConn takes the decision (once, when it accepts the connection): a connection opened while the database has users is restricted until it authenticates, as long as the database has users; a connection opened while it has none is not restricted while it has none. Nothing is demanded of a connection opened without users after users appear, nor of a restricted one after the users are gone: such connections are set aside (left open) and a new one is opened",
+		"'the database has users' is the harness's own model of the users table (every change to it is a generated event); a first answered request on a new connection is the barrier after which the history continues",
 		"refused = the reply is an error or the server closes the connection; a core.Fatal while serving the request counts as the server process exiting",
 		"effects are observed directly on the server's database (logical contents of schema tables, users, stdlib, t0), db.Transactions(), the token table (hook VerifTokens) and the liveness of the authenticated connections, after every unauthenticated request",
 		"steps are sequential (one request in flight at a time); interleaving is between connections, not within a request",
@@ -1158,7 +1163,8 @@ func TestC41(t *testing.T) {
 		loc := e.srv.local
 		loc.Admin("create stdlib (name, group, text) key(name, group)", nil)
 		loc.Admin("create t0 (k, a, b) key(k)", nil)
-		initial := gen.Pick(t, "initial users", []string{"missing", "missing", "empty", "empty", "users", "users", "users", "users", "users", "users"})
+		initial := gen.Pick(t, "initial users", []string{"missing", "missing", "missing", "empty", "empty", "empty", "users", "users", "users", "users", "users", "users", "users",
+			"users", "users", "users", "users", "users", "users", "users"})
 		if initial != "missing" {
 			loc.Admin("create users (user, passhash) key(user)", nil)
 			e.usersTable = true
@@ -1219,7 +1225,12 @@ func TestC41(t *testing.T) {
 		nevents := 0
 		for i := 0; i < nsteps; i++ {
 			ui := gen.Uniform(t, "ui", len(e.U))
-			switch gen.Pick(t, "kind", []string{"a", "req", "req", "req", "req", "req", "nonce", "auth", "users", "open"}) {
+			kinds := []string{"a", "req", "req", "req", "req", "req", "req", "nonce", "auth", "auth", "users", "open"}
+			if !e.haveUsers() {
+				// periods without users are kept short: the property is about databases with users
+				kinds = []string{"a", "req", "open", "users", "users", "users"}
+			}
+			switch gen.Pick(t, "kind", kinds) {
 			case "a":
 				e.aStep()
 			case "req":
@@ -1235,7 +1246,7 @@ func TestC41(t *testing.T) {
 			case "auth":
 				e.uAuth(ui)
 			case "users":
-				if nevents < 4 {
+				if nevents < 4 || !e.haveUsers() {
 					nevents++
 					e.usersEvent()
 				}
